@@ -280,3 +280,26 @@ pub fn mark_overridden_nonmodkeys_for_eager_erasure<T>(
         }
     }
 }
+
+/// Verification hook (off unless built with `--cfg kanata_verif`): the override table as plain
+/// numbers `(input non-mod, output non-mod, input mods, output mods)`, grouped by input key in
+/// declaration order, so that an external harness can serialise it.
+#[cfg(kanata_verif)]
+impl Overrides {
+    pub fn verif_dump(&self) -> Vec<(u16, u16, Vec<u16>, Vec<u16>)> {
+        let mut keys: Vec<&OsCode> = self.overrides_by_osc.keys().collect();
+        keys.sort_by_key(|k| u16::from(**k));
+        let mut out = vec![];
+        for k in keys {
+            for o in self.overrides_by_osc[k].iter() {
+                out.push((
+                    o.in_non_mod_osc.into(),
+                    o.out_non_mod_osc.into(),
+                    o.in_mod_oscs.iter().map(|x| u16::from(*x)).collect(),
+                    o.out_mod_oscs.iter().map(|x| u16::from(*x)).collect(),
+                ));
+            }
+        }
+        out
+    }
+}
